@@ -128,6 +128,15 @@ class SimRaw(io.RawIOBase):
         try:
             super().close()
         finally:
+            src = self._fs.mtime_source
+            if src is not None and self._fs.active and self._path is not ANON:
+                # file timestamps follow the simulated clock (coarse-granularity
+                # file system / writes faster than the clock ticks)
+                try:
+                    t = src()
+                    self._fs._call("utime", self._fd, ns=(t, t))
+                except (OSError, ValueError, TypeError):
+                    pass
             if self._closefd:
                 self._fs.fd_paths.pop(self._fd, None)
                 try:
@@ -183,6 +192,7 @@ class SimFS:
         self.observers = []  # fn(kind, paths, mut)
         self.log = None  # list of (kind, paths) for mutations when recording
         self.listing_rng = None
+        self.mtime_source = None
         self.counts = {}
 
     def _raw_write(self, fd, data):
